@@ -489,7 +489,7 @@ class Interp:
             if r:
                 return Bound(FuncVal(r[0], self.prog.classes[r[1]][1], r[1]), o.self_obj)
             raise Unsupported(f"super().{attr}")
-        if isinstance(o, (list, dict, SetVal, SymDict, Accum, SymColl, tuple)):
+        if isinstance(o, (list, dict, SetVal, SymDict, Accum, SymColl, tuple, HavocColl)):
             return ('builtin_method', o, attr)
         if isinstance(o, tuple) and o and o[0] == 'namedtuple':
             return o[1][attr]
@@ -597,6 +597,11 @@ class Interp:
         return self.ev(e.values[-1], env)
 
     def contains(self, item, cont):
+        if isinstance(cont, HavocColl):
+            kk = self.sd_key(item)
+            if kk not in cont.memo:
+                cont.memo[kk] = self.ctx.fresh(f"in_{cont.name}", 'B')
+            return cont.memo[kk]
         if isinstance(cont, SymDict):
             return self.sd_has(cont, item)
         if isinstance(cont, dict):
@@ -884,6 +889,11 @@ class Interp:
         raise Unsupported(f"call of {f!r}")
 
     def builtin_method(self, o, name, args, kw, node=None):
+        if isinstance(o, HavocColl):
+            if name in ('add', 'append', 'update', 'discard', 'remove', 'extend', 'insert', 'clear', 'setdefault'):
+                o.mutations.append((name, args))
+                return None
+            raise Unsupported(f"read access {name} on a container mutated inside a cut-point loop ({o.name})")
         if isinstance(o, Accum):
             if name == 'append':
                 o.appended.append(args[0])
@@ -1217,6 +1227,32 @@ class Interp:
                     out.append(n.id)
         return out
 
+    MUTATORS = ('add', 'append', 'update', 'discard', 'remove', 'extend', 'insert', 'clear', 'pop', 'setdefault', 'sort')
+
+    def havoc_mutated_containers(self, body, env):
+        """Local containers (set / list / dict values bound to a plain name) that the loop body mutates through a method
+        call or a subscript store are loop-carried state: unknown content at an arbitrary iteration.  Append-only lists
+        that the body never reads become accumulators."""
+        mutated, appended_only, read = set(), set(), set()
+        for stn in body:
+            for n in ast.walk(stn):
+                if isinstance(n, ast.Call) and isinstance(n.func, ast.Attribute) and isinstance(n.func.value, ast.Name) \
+                        and n.func.attr in self.MUTATORS:
+                    (appended_only if n.func.attr == 'append' else mutated).add(n.func.value.id)
+                elif isinstance(n, (ast.Assign, ast.AugAssign)):
+                    for t in (n.targets if isinstance(n, ast.Assign) else [n.target]):
+                        if isinstance(t, ast.Subscript) and isinstance(t.value, ast.Name):
+                            mutated.add(t.value.id)
+                elif isinstance(n, ast.Name) and isinstance(n.ctx, ast.Load):
+                    read.add(n.id)
+        for nm in mutated | appended_only:
+            v = env.get(nm)
+            if isinstance(v, (SetVal, list, dict)) and not isinstance(v, (SymDict,)):
+                if nm in appended_only and nm not in mutated and isinstance(v, list):
+                    env[nm] = Accum(nm, init=v)
+                else:
+                    env[nm] = HavocColl(nm)
+
     def havoc_like(self, v, nm):
         if z3.is_expr(v):
             if z3.is_int(v):
@@ -1329,6 +1365,7 @@ class Interp:
         for n in names:
             if n in env:
                 env[n] = self.havoc_like(env[n], n)
+        self.havoc_mutated_containers(st.body, env)
         if spec and spec.get('havoc'):
             spec['havoc'](self, env, pre_env)
         if mode == 1 and spec and spec.get('havoc_exit'):
@@ -1405,6 +1442,7 @@ class Interp:
         for n in self.assigned_names(st.body):
             if n in env:
                 env[n] = self.havoc_like(env[n], n)
+        self.havoc_mutated_containers(st.body, env)
         if spec.get('havoc'):
             spec['havoc'](self, env, pre_env)
         for nm, g in spec['inv'](self, env):
@@ -1446,6 +1484,11 @@ def explore(run, max_paths=20000, prune=True, feas_timeout=1500):
             oc = ('raise', e)
         except Unsupported as e:
             oc = ('unsupported', str(e))
+        except (_Ret, _Break, _Continue):
+            raise
+        except Exception as e:      # a sidecar callback that no longer fits the code: undecided, never a crash or a violation
+            import traceback
+            oc = ('unsupported', f"sidecar/engine error {type(e).__name__}: {e} @ {traceback.format_exc().strip().splitlines()[-3][:120]}")
         stack.extend(ctx.new)
         for k, o in enumerate(ctx.obl):
             o.path_id = len(out)
